@@ -75,14 +75,7 @@ func c15dispatch(c *an.Ctx) {
 			return
 		}
 		for _, t := range an.BoolTests(b) {
-			for _, x := range t.True.To.Instrs {
-				if ci, ok := x.(*ssa.Call); ok {
-					if f := an.StaticCallee(ci); f != nil && f.Signature.Recv() != nil {
-						tbl[s] = f.Name()
-						break
-					}
-				}
-			}
+			tbl[s] = dispatchedFrom(exec, t.True)
 		}
 	})
 	for _, cmd := range []string{"PING", "IDENTIFY", "REGISTER", "UNREGISTER"} {
